@@ -76,7 +76,7 @@ def displacement_loop_contract(I, node, frame):
     from pyvc.models.arrays import assign_in_place
     assign_in_place(atoms.arrays["positions"], old.like(old.term))      # havoc to the invariant, keeping the array object (aliases!)
     if I.path.branch(I.path.fresh("another_attempt", "bool").t):
-        yield from I.exec_block(node.body, frame)
+        yield from I.exec_loop_body(node, frame)
         I.path.oblige(DM + ".attempt_displacement#loop[0].preserve", inv_rows(I, atoms, "positions", old), kind="loop")
         raise CutPath()
 
@@ -99,7 +99,7 @@ def cell_loop_contract(I, node, frame):
     from pyvc.models.arrays import assign_in_place
     assign_in_place(atoms.arrays["positions"], op_.like(op_.term))
     if I.path.branch(I.path.fresh("another_attempt", "bool").t):
-        yield from I.exec_block(node.body, frame)
+        yield from I.exec_loop_body(node, frame)
         I.path.oblige(CM + ".attempt_deformation#loop[0].preserve", inv(), kind="loop")
         raise CutPath()
 
